@@ -613,3 +613,25 @@ package bbolt
 //@ F [writeat.callers] props C17 C06 C01 : callers struct_writeAt.writeAt subset bbolt.(*Tx).write, bbolt.(*Tx).writeMeta, bbolt.(*DB).init
 //@ F [flock.callers] props C17 : callers bbolt.flock subset bbolt.Open
 //@ F [funlock.callers] props C17 : callers bbolt.funlock subset bbolt.(*DB).close
+
+// ---------------------------------------------------------------- C14: hot backup
+
+//@ func (*Tx).Size
+//@   props C14
+//@   requires tx.meta != nil && tx.db != nil
+//@   ensures result == wrapint(wrapint(tx.meta.pgid) * tx.db.pageSize)
+//@   modifies nothing
+
+//@ func (*Tx).WriteTo
+//@   returns (n, err)
+//@   props C14
+//@   requires tx.db != nil && tx.meta != nil && tx.db.file != nil && tx.db.pageSize >= 512 && tx.db.pageSize <= 16777216
+//@   requires tx.meta.txid >= 1 && tx.meta.pgid >= 2 && tx.meta.pgid * tx.db.pageSize <= 281474976710655 && metavalid(tx.meta)
+//@   callback ensures true
+//@   ensures [size] err == nil ==> n == tx.meta.pgid * tx.db.pageSize && wbytes == old(wbytes) + n
+//@   ensures [meta0] err == nil ==> (let k := old(wcount) in wpageid[k] == 0 && wflags[k] == common.MetaPageFlag && wlen[k] == tx.db.pageSize && wtxid[k] == tx.meta.txid && wroot[k] == tx.meta.root.root && wfreelist[k] == tx.meta.freelist && wpgid[k] == tx.meta.pgid && wvalid[k])
+//@   ensures [meta1] err == nil ==> (let k := old(wcount) + 1 in wpageid[k] == 1 && wflags[k] == common.MetaPageFlag && wlen[k] == tx.db.pageSize && wtxid[k] == tx.meta.txid - 1 && wroot[k] == tx.meta.root.root && wfreelist[k] == tx.meta.freelist && wpgid[k] == tx.meta.pgid && wvalid[k])
+//@   ensures [data] err == nil ==> sroff == 2 * tx.db.pageSize && srlen == (tx.meta.pgid - 2) * tx.db.pageSize && copyn == srlen
+//@   ensures [source] err == nil && tx.WriteFlag == 0 ==> srfile == tx.db.file
+//@   ensures [unchanged] tx.meta.txid == old(tx.meta.txid) && tx.meta.pgid == old(tx.meta.pgid) && tx.meta.checksum == old(tx.meta.checksum)
+//@   skip tx.go:431 because the buffer was just made with pageSize >= 512 bytes; make() of a symbolic size is not tracked by the slice-length model after the callback havoc
